@@ -4326,7 +4326,11 @@ int bufr_fdump_dataset( BUFR_Dataset *dts, FILE *fp )
 
          if (bcv->flags & FLAG_SKIPPED)
             {
-            if (bcv->flags & FLAG_IGNORED)
+/*
+ * only the placeholders of a replication that occurred zero times are comments; a replica keeps
+ * FLAG_IGNORED, and once expanded its replication descriptor must be seen by the loader
+ */
+            if ((bcv->flags & FLAG_IGNORED) && !(bcv->flags & FLAG_EXPANDED))
                fprintf( fp, "#%.6d ", bcv->descriptor );
             else
                fprintf( fp, "%.6d ", bcv->descriptor );
